@@ -23,10 +23,11 @@ import (
 )
 
 const (
-	findClass   = "tsig-class-not-any"    // DESIGN §4 #18
-	findFudge   = "tsig-fudge-zero"       // a Fudge of 0 on the wire is replaced by 300 before the MAC is computed
-	findReqMAC1 = "tsig-reqmac-one-octet" // a request MAC of exactly one octet: tsigBuffer's scratch buffer is one octet short
-	findDDDName = "tsig-name-ddd-upper"   // a key / algorithm name handed to TsigGenerate with an upper-case letter written as \DDD is digested unfolded
+	findClass   = "tsig-class-not-any"     // DESIGN §4 #18
+	findFudge   = "tsig-fudge-zero"        // a Fudge of 0 on the wire is replaced by 300 before the MAC is computed
+	findReqMAC1 = "tsig-reqmac-one-octet"  // a request MAC of exactly one octet: tsigBuffer's scratch buffer is one octet short
+	findDDDName = "tsig-name-ddd-upper"    // a key / algorithm name handed to TsigGenerate with an upper-case letter written as \DDD is digested unfolded
+	findNotLast = "tsig-not-last-accepted" // TsigVerify takes the first TSIG of the additional section, wherever it stands, and ignores what follows it
 )
 
 // dddUpper finds the \DDD escapes of s that denote an upper-case ASCII letter (\075 is a K) and
@@ -104,26 +105,27 @@ var algNames = []string{"hmac-sha1.", "hmac-sha224.", "hmac-sha256.", "hmac-sha3
 var macLen = map[string]int{"hmac-sha1.": 20, "hmac-sha224.": 28, "hmac-sha256.": 32, "hmac-sha384.": 48, "hmac-sha512.": 64}
 
 type tsigCase struct {
-	Msg        msgspec.Spec
-	KeyName    string // presentation, any case, may carry escapes
-	Alg        string // presentation of the algorithm name, any case
-	Secret     []byte
-	ReqMAC     []byte // empty: no request MAC
-	TimersOnly bool
-	Fudge      uint16 // >= 1
-	Time       uint64 // signing time, > Fudge
-	Error      uint16
-	Other      []byte
-	RefSigned  bool    // the reference signs (header ID may differ from OrigId by IDDelta)
-	IDDelta    uint16  // header ID = OrigId + IDDelta (reference-signed: the header is rewritten after signing; library-signed: Msg.Id differs from the TSIG's OrigId before TsigGenerate, RFC 8945 4.2 "Original ID")
-	StaleStub  bool    // library-signed: the TSIG stub handed to TsigGenerate still carries a MAC from an earlier use
-	ZeroFudge  bool    // library-signed: the stub carries Fudge 0 (documented default: 300); Fudge must then be 300
-	ZeroTime   bool    // library-signed: the stub carries TimeSigned 0 (documented default: now); Time is replaced by what TsigGenerate used
-	Sample     []int   // sampled flip positions for long messages
-	Far        []int64 // verifier clock offsets (now - time signed) far outside the window: +-(k*2^j) + d, |d| <= fudge+1
-	Secret2    []byte  // "wrong secret" for the only-if clause
-	SkipClass  bool    // set by the generator only (known finding #18): alterations of the TSIG CLASS field are not evaluated
-	SkipFudge0 bool    // set by the generator only (known finding): the alteration Fudge := 0 is not evaluated
+	Msg         msgspec.Spec
+	KeyName     string // presentation, any case, may carry escapes
+	Alg         string // presentation of the algorithm name, any case
+	Secret      []byte
+	ReqMAC      []byte // empty: no request MAC
+	TimersOnly  bool
+	Fudge       uint16 // >= 1
+	Time        uint64 // signing time, > Fudge
+	Error       uint16
+	Other       []byte
+	RefSigned   bool    // the reference signs (header ID may differ from OrigId by IDDelta)
+	IDDelta     uint16  // header ID = OrigId + IDDelta (reference-signed: the header is rewritten after signing; library-signed: Msg.Id differs from the TSIG's OrigId before TsigGenerate, RFC 8945 4.2 "Original ID")
+	StaleStub   bool    // library-signed: the TSIG stub handed to TsigGenerate still carries a MAC from an earlier use
+	ZeroFudge   bool    // library-signed: the stub carries Fudge 0 (documented default: 300); Fudge must then be 300
+	ZeroTime    bool    // library-signed: the stub carries TimeSigned 0 (documented default: now); Time is replaced by what TsigGenerate used
+	Sample      []int   // sampled flip positions for long messages
+	Far         []int64 // verifier clock offsets (now - time signed) far outside the window: +-(k*2^j) + d, |d| <= fudge+1
+	Secret2     []byte  // "wrong secret" for the only-if clause
+	SkipClass   bool    // set by the generator only (known finding #18): alterations of the TSIG CLASS field are not evaluated
+	SkipFudge0  bool    // set by the generator only (known finding): the alteration Fudge := 0 is not evaluated
+	SkipNotLast bool    // set by the generator only (known finding): messages made by a key holder whose TSIG is not the last additional record are not evaluated
 }
 
 func labelsOf(text string) (ref.Labels, error) {
@@ -603,6 +605,26 @@ func checkTsig(c tsigCase) (err error) {
 	before = ref.AppendRR(before, ref.Labels{[]byte("x")}, 1, 1, 0, []byte{192, 0, 2, 1})
 	ref.SetARCount(before, ref.ARCount(out)+1)
 	alts = append(alts, alt{"TSIG followed by an A record, ARCOUNT raised", before, c.Secret, c.ReqMAC, c.TimersOnly})
+	// messages made by a holder of the secret who does not sign what RFC 8945 4.3.2 says: the TSIG is
+	// NOT the last additional record (1..2 records follow it: an A record, an OPT, a second TSIG under
+	// another key name, a copy of itself), and the MAC covers the octets in front of the TSIG with an
+	// ARCOUNT that counts everything but the TSIG. "The message without the TSIG record" includes the
+	// records after it, so this MAC is not the RFC 8945 HMAC of the message as received (and RFC 8945
+	// 5.2 refuses a TSIG in any position but the last, and more than one, with FORMERR)
+	if !c.SkipNotLast {
+		for _, h := range holderTails {
+			p := append([]byte(nil), stripped...)
+			ref.SetARCount(p, ref.ARCount(stripped)+uint16(h.n))
+			t := *base
+			x, _, serr := ref.TsigSign(p, t, c.Secret, c.ReqMAC, c.TimersOnly)
+			if serr != nil {
+				continue
+			}
+			x = h.tail(x, base)
+			ref.SetARCount(x, ref.ARCount(stripped)+1+uint16(h.n))
+			alts = append(alts, alt{"made by a key holder: MAC over the octets in front of the TSIG, " + h.name, x, c.Secret, c.ReqMAC, c.TimersOnly})
+		}
+	}
 	// octets after the TSIG record are outside the message the header counts delimit: every decoder
 	// of the library ignores them, and so does the reference (classified by consensus, never asserted)
 	alts = append(alts, alt{"octets appended after the TSIG record", append(append([]byte(nil), out...), 0, 0, 250, 0, 255), c.Secret, c.ReqMAC, c.TimersOnly})
@@ -642,6 +664,34 @@ func checkTsig(c tsigCase) (err error) {
 		}
 	}
 	return nil
+}
+
+// holderTails: what follows a TSIG that is not the last additional record (see checkTsig).
+var holderTails = []struct {
+	name string
+	n    int
+	tail func(x []byte, genuine *ref.Tsig) []byte
+}{
+	{"an A record after it", 1, func(x []byte, _ *ref.Tsig) []byte {
+		return ref.AppendRR(x, ref.Labels{[]byte("x")}, 1, 1, 0, []byte{192, 0, 2, 1})
+	}},
+	{"an OPT record after it", 1, func(x []byte, _ *ref.Tsig) []byte { return ref.AppendRR(x, nil, 41, 1232, 0, nil) }},
+	{"a second TSIG under another key name after it", 1, func(x []byte, g *ref.Tsig) []byte { return otherTsig(g).AppendTo(x) }},
+	{"a copy of the TSIG after it", 1, func(x []byte, g *ref.Tsig) []byte {
+		t := *g
+		return t.AppendTo(x) // g.MAC is the MAC of the unaltered message, any octets will do here
+	}},
+	{"an A record and a second TSIG under another key name after it", 2, func(x []byte, g *ref.Tsig) []byte {
+		x = ref.AppendRR(x, ref.Labels{[]byte("x")}, 1, 1, 0, []byte{192, 0, 2, 1})
+		return otherTsig(g).AppendTo(x)
+	}},
+}
+
+func otherTsig(g *ref.Tsig) *ref.Tsig {
+	t := *g
+	t.KeyName = ref.Labels{[]byte("another-key")}
+	t.MAC = bytes.Repeat([]byte{0xa5}, len(g.MAC))
+	return &t
 }
 
 func btoi(b bool) int {
@@ -808,6 +858,10 @@ func genTsig(t *rapid.T) tsigCase {
 		pbt.Excluded(findFudge)
 		c.SkipFudge0 = true
 	}
+	if pbt.Known(findNotLast) {
+		pbt.Excluded(findNotLast)
+		c.SkipNotLast = true
+	}
 	return c
 }
 
@@ -821,18 +875,18 @@ func init() {
 	}
 	pbt.Probe(findClass, func() error {
 		c := simple
-		c.SkipFudge0 = true
+		c.SkipFudge0, c.SkipNotLast = true, true
 		return checkTsig(c)
 	})
 	pbt.Probe(findFudge, func() error {
 		c := simple
-		c.SkipClass = true
+		c.SkipClass, c.SkipNotLast = true, true
 		return checkTsig(c)
 	})
 	// the breaker's input: TsigGenerate(m, secret, "ab", false) - a request MAC of one octet
 	pbt.Probe(findReqMAC1, func() error {
 		c := simple
-		c.SkipClass, c.SkipFudge0 = true, true
+		c.SkipClass, c.SkipFudge0, c.SkipNotLast = true, true, true
 		c.ReqMAC = []byte{0xab}
 		return checkTsig(c)
 	})
@@ -840,6 +894,15 @@ func init() {
 	pbt.Probe(findDDDName, func() error {
 		c := simple
 		c.KeyName = `\075ey.`
+		c.SkipNotLast = true
+		return checkTsig(c)
+	})
+	// the breaker's input: a message with two TSIG records, the first one made with the holder's key,
+	// the last one naming another key
+	pbt.Probe(findNotLast, func() error {
+		c := simple
+		c.RefSigned = true
+		c.SkipClass, c.SkipFudge0 = true, true
 		return checkTsig(c)
 	})
 }
